@@ -500,19 +500,25 @@ impl From<&RowIdSequence> for RowIdTreeMap {
                 U64Segment::Range(range) => {
                     tree_map.insert_range(range.clone());
                 }
+                // Holes are removed from a per-segment set: a hole of this
+                // segment may be an id that another segment contains.
                 U64Segment::RangeWithBitmap { range, bitmap } => {
-                    tree_map.insert_range(range.clone());
+                    let mut segment_map = Self::new();
+                    segment_map.insert_range(range.clone());
                     for (i, val) in range.clone().enumerate() {
                         if !bitmap.get(i) {
-                            tree_map.remove(val);
+                            segment_map.remove(val);
                         }
                     }
+                    tree_map |= segment_map;
                 }
                 U64Segment::RangeWithHoles { range, holes } => {
-                    tree_map.insert_range(range.clone());
+                    let mut segment_map = Self::new();
+                    segment_map.insert_range(range.clone());
                     for hole in holes.iter() {
-                        tree_map.remove(hole);
+                        segment_map.remove(hole);
                     }
+                    tree_map |= segment_map;
                 }
                 U64Segment::SortedArray(array) | U64Segment::Array(array) => {
                     for val in array.iter() {
